@@ -178,7 +178,8 @@ def _mk_callable(rt, path, nd, entry):
     orig = [dict(map(tuple, nd["pmap"]))[p] for p in nd["inputs"]]
     dflt = set(dict(map(tuple, nd["pmap"]))[p] for p in nd["defaults"])
     sig = [p for p in orig if p not in dflt] + [p for p in orig if p in dflt]
-    params = ", ".join(f"{p}='dflt.{p}'" if p in dflt else p for p in sig)
+    dv = dict(map(tuple, nd.get("dvals", [])))
+    params = ", ".join((f"{p}={IR.pyval(dv[p])!r}" if p in dv else f"{p}='dflt.{p}'") if p in dflt else p for p in sig)
     argt = "(" + "".join(f"({p!r}, {p}), " for p in orig) + ")"
     fname = nd.get("fname", nd["name"])
     is_async = nd["is_async"] and entry == "call"
